@@ -234,6 +234,15 @@ class RuleCtx:
     def note(self, msg):
         self.notes.append(msg)
 
+    def unrecognised(self, site, what, line=0, role="", found=""):
+        """The construct the rule reasons about was not found in the shape the rule knows.  That is not evidence of a violation
+        (a change that simply removed the mechanism would not pass the library's own tests): the rule cannot decide."""
+        q, f, l = self._site(site)
+        if hasattr(line, "lineno"):
+            line = line.lineno
+        self.obls.append(Obligation(self.rd.property_id, self.rd.rid, self.rd.kind, q, "error",
+                                    f"cannot decide: {what}" + (f" (found {str(found)[:120]})" if found else ""), f, line or l, role))
+
     def sub(self, fn, only=None, drop=None):
         """Run another rule function under this rule's id; a 'cannot decide' there does not stop the remaining obligations.
         only / drop: regular expressions matched at the start of the role - the including property keeps just the obligations that are necessary conditions of *it*
